@@ -7,6 +7,7 @@ import (
 	"path/filepath"
 	"sort"
 	"strings"
+	"time"
 )
 
 // BEntry is one entry of a build: a regular file, a directory or a symlink.
@@ -20,6 +21,7 @@ type BEntry struct {
 // Build is a directory tree described in memory.
 type Build struct {
 	Entries []BEntry
+	ReadErr string `json:"read_err,omitempty"` // set by ReadTree when the listing is partial
 }
 
 func (b *Build) Clone() *Build {
@@ -120,7 +122,27 @@ func (b *Build) Write(dir string) error {
 }
 
 // ReadTree walks dir independently of wharf/lake (Lstat, ReadFile, Readlink).
+// ReadTree reads a directory tree.  An error in the middle of the walk (a transient one: the machine short of file
+// handles or memory under load) would leave a PARTIAL listing that an oracle then reports as missing entries, so
+// the walk is repeated a few times before the error is believed, and a listing that is still partial says so
+// (Build.ReadErr, shown first by DiffTrees).
 func ReadTree(dir string) (*Build, error) {
+	var b *Build
+	var err error
+	for attempt := 0; attempt < 4; attempt++ {
+		b, err = readTreeOnce(dir)
+		if err == nil || os.IsNotExist(err) {
+			break
+		}
+		time.Sleep(time.Duration(150*(attempt+1)) * time.Millisecond)
+	}
+	if err != nil && !os.IsNotExist(err) {
+		b.ReadErr = err.Error()
+	}
+	return b, err
+}
+
+func readTreeOnce(dir string) (*Build, error) {
 	b := &Build{}
 	var walk func(rel string) error
 	walk = func(rel string) error {
@@ -197,6 +219,9 @@ func DiffTrees(got, want *Build) string {
 		w[e.Path] = e
 	}
 	var diffs []string
+	if got.ReadErr != "" {
+		diffs = append(diffs, "THE LISTING OF THE TREE IS PARTIAL, reading it failed: "+got.ReadErr)
+	}
 	var paths []string
 	for p := range g {
 		paths = append(paths, p)
